@@ -16,9 +16,10 @@ RULE = ('case = rows of table Src (key columns Text/Int/Numeric/Bool/Date/Choice
         'right-type, alt-text and empty cells from small colliding pools; sort columns Numeric/Text/Int; explicit '
         'manualSort) + rows of Probe (typed key source columns) + 1-6 lookups (lookupRecords/lookupOne over 0-2 key '
         'columns, constant or per-row $col keys incl. cross-type keys, CONTAINS with/without match_empty on the list '
-        'columns, order_by absent/None/str/-str/tuple/with id/-id/manualSort, legacy sort_by) + up to 8 edit bundles '
-        'on Src (key edits, sort edits, bulk edits, add, remove, manualSort moves, key-column type changes, remove + '
-        're-add of the same row id) and on the probe keys. The oracle runs after the build and after EVERY bundle. '
+        'columns, order_by absent/None/str/-str/tuple/with id/-id/manualSort, legacy sort_by; one looked-up column is '
+        'a formula column of Src) + up to 8 edit bundles on Src (key edits, sort edits, bulk edits, add, remove, '
+        'manualSort moves, key-column type changes, remove + re-add of the same row id, ReplaceTableData, undo of the '
+        'previous bundle) and on the probe keys. The oracle runs after the build and after EVERY bundle. '
         'Non-trivial = a judged lookup with >=2 matches or an explicit order_by/sort_by that was judged again after '
         '>=1 successful edit of Src; distinct by hash of the case.')
 ORACLE = ('reference over fetch_table(Src)/fetch_table(Probe) values (gv/lkref.py, written from the docstrings): key '
@@ -36,9 +37,12 @@ ASSUMPTIONS = ['preconditions of the statement: every column named in order_by/s
                'keys whose conversion is not covered by the type documentation (fractional number to Int, float to '
                'Ref, ISO text to Date, ...) are not judged (label unjudged:*)',
                'Date cells are whole-day timestamps; Ref/RefList target an existing table (Tgt, 3 rows)',
-               'a bundle that the engine rejects ends the case (known: formula cells stay dirty after a failed bundle)']
-BUDGET = {'quick': dict(examples=1500, shards=16, max_seconds=55),
-          'thorough': dict(examples=24000, shards=16, max_seconds=560)}
+               'a bundle that the engine rejects ends the case (known: formula cells stay dirty after a failed bundle)',
+               'root-cause attribution: ghost rows after ReplaceTableData and lookups not re-evaluated after a type '
+               'change of their key column (key converts differently, cell unchanged since the previous check) are '
+               'reported under their own signatures (known_findings.d/C13.json); any other difference keeps a generic one']
+BUDGET = {'quick': dict(examples=2000, shards=16, max_seconds=50),
+          'thorough': dict(examples=36000, shards=16, max_seconds=560)}
 SHRINK_BUDGET = {'quick': 120, 'thorough': 400}
 
 KEYCOLS = [('KT', 'Text'), ('KI', 'Int'), ('KN', 'Numeric'), ('KB', 'Bool'), ('KD', 'Date'), ('KC', 'Choice'),
